@@ -1,4 +1,6 @@
 import GlueVerif.Lemmas.ArrayUtil
+import GlueVerif.Lemmas.C20Combine
+import GlueVerif.Lemmas.C20Loop
 /-!
 # C20 — chunk, slice and broadcast helpers are exact
 
@@ -57,5 +59,81 @@ the slice really selects. -/
 theorem viewShape_slice_length (b e : Int) (st : Nat) (hst : 0 < st) :
     (pyRange b e st).length = rangeLen b e st :=
   Lemmas.pyRange_length b e st hst
+
+end GlueVerif.C20
+
+-- ## combine_slices and loop refinement (b-C20p)
+namespace GlueVerif.C20
+open GlueVerif.ArrayUtil
+
+/-- `combine_slices` is exact for all inputs: for any two normalised slices with positive steps
+(no range restriction on the bounds is needed), the slice `(start, stop, step)` computed by the
+code, applied to the view `range(slice1)` (of length `rangeLen beg1 end1 step1`), selects exactly
+the positions of the elements of slice 1 that also belong to slice 2 — same positions, same order. -/
+theorem combineNorm_correct (beg1 end1 : Int) (step1 : Nat) (beg2 end2 : Int) (step2 : Nat)
+    (h1 : 0 < step1) (h2 : 0 < step2) :
+    let out := combineNorm beg1 end1 step1 beg2 end2 step2
+    applySliceTo (rangeLen beg1 end1 step1) out.1 out.2.1 out.2.2 =
+      combineSpec beg1 end1 step1 beg2 end2 step2 :=
+  Lemmas.C20Combine.combineNorm_correct beg1 end1 step1 beg2 end2 step2 h1 h2
+
+/-- The form the driver evaluates (`implok`): for every array length and every pair of Python
+slices whose `slice.indices(len)` succeed with positive steps, the model's `combine_slices` output
+satisfies `specCombine`. -/
+theorem combineSlices_spec (len : Nat) (s1 s2 : Option Int × Option Int × Option Int)
+    (b1 e1 st1 b2 e2 st2 : Int)
+    (hs1 : sliceIndices s1.1 s1.2.1 s1.2.2 len = some (b1, e1, st1))
+    (hs2 : sliceIndices s2.1 s2.2.1 s2.2.2 len = some (b2, e2, st2))
+    (h1 : 0 < st1) (h2 : 0 < st2) :
+    specCombine len s1 s2 (combineNorm b1 e1 st1.toNat b2 e2 st2.toNat) = true :=
+  Lemmas.C20Combine.specCombine_combineNorm len s1 s2 b1 e1 st1 b2 e2 st2 hs1 hs2 h1 h2
+
+example : sliceIndices (some 1) (some 20) (some 3) 25 = some (1, 20, 3) ∧
+    sliceIndices (some 2) (some (-7)) (some 2) 25 = some (2, 18, 2) ∧
+    combineNorm 1 20 3 2 18 2 = (1, 6, 2) ∧
+    combineSpec 1 20 3 2 18 2 = [1, 3, 5] := by decide
+
+/-- The literal `while` loop of `iterate_chunks` (odometer with carry and break, fuel
+`numChunks`) produces exactly the product-form chunk list, for every number of axes, every shape
+with positive sizes and every chunk shape with positive entries of the same length (the chunk
+entries need not fit within the shape). -/
+theorem iterLoop_eq_prod (shape chunk : List Nat) (hlen : chunk.length = shape.length)
+    (hs : ∀ s ∈ shape, 0 < s) (hc : ∀ c ∈ chunk, 0 < c) :
+    iterateChunksLoop shape chunk = iterateChunksProd shape chunk :=
+  Lemmas.C20Loop.iterLoop_eq_prod shape chunk hlen hs hc
+
+example : iterateChunksLoop [5, 3] [2, 2] =
+    [[(0, 2), (0, 2)], [(2, 4), (0, 2)], [(4, 5), (0, 2)],
+     [(0, 2), (2, 3)], [(2, 4), (2, 3)], [(4, 5), (2, 3)]] := by decide
+
+/-- **The literal loop is an exact partition**: corollary of `iterLoop_eq_prod` and
+`iterateChunks_partition` — the list the code's `while` loop yields visits every element exactly
+once, chunk by chunk, for every shape and every admissible chunk shape. -/
+theorem iterateChunksLoop_partition (shape chunk : List Nat) (hlen : chunk.length = shape.length)
+    (hs : ∀ s ∈ shape, 0 < s) (hc : ∀ c ∈ chunk, 0 < c) :
+    specIter shape (some chunk) none (iterateChunksLoop shape chunk) = true := by
+  rw [iterLoop_eq_prod shape chunk hlen hs hc]
+  exact iterateChunks_partition shape chunk hlen hc
+
+/-- The literal loop with an element limit: exact partition and no chunk larger than `n_max`. -/
+theorem iterateChunksLoop_nmax (shape : List Nat) (n : Nat) (hn : 0 < n) (hs : ∀ s ∈ shape, 0 < s) :
+    specIter shape none (some n) (iterateChunksLoop shape (findChunkShape shape n)) = true := by
+  have hspec := findChunkShape_spec shape n hn hs
+  have hl : (findChunkShape shape n).length = shape.length := by
+    unfold specFcs at hspec
+    simp only [Bool.and_eq_true, beq_iff_eq] at hspec
+    exact hspec.1.1
+  have hc : ∀ c ∈ findChunkShape shape n, 0 < c := by
+    intro c hcm
+    unfold specFcs at hspec
+    simp only [Bool.and_eq_true, List.all_eq_true, decide_eq_true_eq] at hspec
+    obtain ⟨k, hk, rfl⟩ := List.getElem_of_mem hcm
+    have hk' : k < ((findChunkShape shape n).zip shape).length := by
+      simp [List.length_zip, hl]; omega
+    have := hspec.2 _ (List.getElem_mem hk')
+    simp at this
+    omega
+  rw [iterLoop_eq_prod shape _ hl hs hc]
+  exact iterateChunks_nmax shape n hn hs
 
 end GlueVerif.C20
